@@ -1356,8 +1356,8 @@ MP('r56_owned_rename_swapped', ['C08'], ['C08-R7'], 'to_owned with named locals:
 # 10.6 "What is still reported": they are run against the checks that stay silent, so that those do not regress.
 NP('n_ref8_passing_style', ALL, 'R57: by-value / by-reference / associated-function forms of private helpers', 'selftest/neutral/R57.diff')
 NP('n_ref8_result_plumbing', ALL, 'R61: ensure() helper, map / `?` / let-else plumbing', 'selftest/neutral/R61.diff')
-NP('n_ref8_private_enums', ['C06', 'C07', 'C11', 'C12', 'C13', 'C15', 'C16', 'C20'], 'R58: private enums and a parameter struct instead of bools (other checks: known alarms, DESIGN 10.6)', 'selftest/neutral/R58.diff')
-NP('n_ref8_pipelines', ['C11', 'C12', 'C13', 'C15', 'C16'], 'R59: try_for_each / from_fn pipelines in lib.rs (other checks: known alarms, DESIGN 10.6)', 'selftest/neutral/R59.diff')
+NP('n_ref8_private_enums', ['C06', 'C07', 'C11', 'C12', 'C13', 'C16', 'C20'], 'R58: private enums and a parameter struct instead of bools (other checks: known alarms, DESIGN 10.6)', 'selftest/neutral/R58.diff')
+NP('n_ref8_pipelines', ['C11', 'C12', 'C13', 'C16'], 'R59: try_for_each / from_fn pipelines in lib.rs (other checks: known alarms, DESIGN 10.6)', 'selftest/neutral/R59.diff')
 NP('n_ref8_moved_functions', ALL, 'R60: private methods moved to free functions / other impl blocks, a kind predicate deleted and inlined at its use', 'selftest/neutral/R60.diff')
 
 MP('r57_accept_payload_wrong_identity', ['C17'], ['C17-R3'], 'associated-function form of accept_payload is handed the sender instead of the own identity',
